@@ -6,7 +6,8 @@
 From Coq Require Import ZArith List Bool.
 From stdpp Require Import gmap.
 From VF Require Import Gen.Consts Base.Corr Base.SetSum Model.Partition Model.PartitionInv
-  Model.Power Proofs.Partition_lemmas Proofs.Partition_c02 Proofs.Power_lemmas.
+  Model.Power Model.Deadline Model.DeadlineInv Model.DeadlineC02
+  Proofs.Partition_lemmas Proofs.Partition_c02 Proofs.Power_lemmas Proofs.Deadline_c02b.
 Import ListNotations.
 Open Scope Z_scope.
 
@@ -66,6 +67,21 @@ Theorem C02_missed_post_removes_power_at_deadline_end : forall st fe p' d pen nf
   credited (st_tbl st) p' = pp0 /\ active_sectors p' = ∅ /\ d = pp_neg (st_credited st).
 Proof. exact missed_post_removes_power. Qed.
 
+(* ---------- deadline: the same for every operation of deadline_state.rs ----------
+   dcredited = Σ over the deadline's partitions of the credited power; dstep_delta = what the
+   operation returns to the miner actor (record_faults / record_proven_sectors /
+   process_deadline_end return the delta, terminate returns the power lost, expiry the expired
+   active power; sectors are added unproven; compaction reports nothing). *)
+Theorem C02_deadline_delta_is_difference : forall st o,
+  DsInv st -> dop_wf st o ->
+  ds_credited (dnext st o) = pp_add (ds_credited st) (dstep_delta st o).
+Proof. exact ddelta_is_difference. Qed.
+
+Theorem C02_deadline_credited_is_sum_of_deltas : forall unit off psize ops,
+  0 < unit -> 0 < psize -> dall_wf (dinit unit off psize) ops ->
+  ds_credited (drun (dinit unit off psize) ops) = dsum_deltas (dinit unit off psize) ops.
+Proof. exact dcredited_is_sum_of_deltas. Qed.
+
 (* ---------- power actor: totals = sums of claims under the consensus-minimum rule ---------- *)
 Theorem C02_power_totals_exact : forall minp minm ops,
   0 < minp -> pall_wf (pinit minp minm) ops -> PowerInv (prun (pinit minp minm) ops).
@@ -87,10 +103,11 @@ Theorem C02_claim_is_sum_of_deltas : forall st m dr dq st' c,
   (forall m', m' <> m -> claims st' !! m' = claims st !! m').
 Proof. exact claim_is_sum_of_deltas. Qed.
 
-(* Composition at the level of one partition driven by its callers: if the miner forwards every
-   reported delta to UpdateClaimedPower, its claim equals the credited power.  The composition
-   over the 48 deadlines and the message handlers of actors/miner/src/lib.rs is validated by the
-   handler-level correspondence harness, not proved: *)
+(* Composition: if the miner forwards every reported delta to UpdateClaimedPower, its claim equals
+   the credited power.  Proved for one partition (below) and one deadline (above) driven by their
+   callers; the composition over the 48 deadlines and the message handlers of
+   actors/miner/src/lib.rs (which delta each handler sends, cron scheduling) is validated by the
+   handler-level monitor harness (harness/src/bin/minerpower.rs), not proved: *)
 Theorem C02_miner_claim_tracks_partial : forall unit off ops,
   0 < unit -> all_wf (init unit off) ops ->
   let claim := sum_deltas (init unit off) ops in
